@@ -110,6 +110,7 @@ func NewTableFromDocument(fs storage.FileSystem, dataOwnership kv.DataOwnership,
 		canDelete, err := p.dataOwnership.ExclusivelyOwnsTable(p.uri, p.startKey, p.endKey)
 		if err != nil {
 			slog.Error("failed determining exclusive ownership, not deleting", "err", err, "uri", p.uri)
+			return
 		}
 
 		if canDelete {
